@@ -241,3 +241,49 @@ def c01_ashr(R):
             construct=f"{name}: arithmetic shift rewritten to `{norm(v)[:40]}`",
         )
     R.need(n >= 2, f"{name}: only {n} shift-dropping rewrites found")
+
+
+@rule(
+    "C07.flag",
+    props=("C07",),
+    floor=1,
+    family="WHO",
+    desc="a simplifier hands back (result, True) - 'annotations already dealt with', which makes operations.op skip "
+    "_handle_annotations - only for a result that it obtained from _handle_annotations itself: an argument passed "
+    "through unchanged has not been dealt with (the annotations of the node that disappears, and of its other "
+    "arguments, are neither vetoed nor relocated)",
+)
+def c07_flag(R):
+    tree = R.tree
+    m = tree.mod(SIMP)
+    n = flagged = 0
+    for name, fn in m.functions.items():
+        if not (isinstance(fn, ast.FunctionDef) and name.endswith("_simplifier")):
+            continue
+        n += 1
+        for r in walk_no_nested(fn):
+            if not (isinstance(r, ast.Return) and isinstance(r.value, ast.Tuple) and len(r.value.elts) == 2):
+                continue
+            flag = r.value.elts[1]
+            if isinstance(flag, ast.Constant) and flag.value is False:
+                continue
+            flagged += 1
+            res = r.value.elts[0]
+            handled = any(isinstance(c, ast.Call) and (dotted(c.func) or "").split(".")[-1] == "_handle_annotations" for c in ast.walk(res))
+            if not handled and isinstance(res, ast.Name):
+                for st in walk_no_nested(fn):
+                    if isinstance(st, ast.Assign) and any(isinstance(t, ast.Name) and t.id == res.id for t in st.targets):
+                        handled = handled or any(isinstance(c, ast.Call) and (dotted(c.func) or "").split(".")[-1] == "_handle_annotations" for c in ast.walk(st.value))
+            R.check(
+                handled,
+                m,
+                r,
+                f"{name}: 'annotated' claimed only for a result of _handle_annotations",
+                f"{name} returns `{norm(r.value)[:80]}`: the flag makes the caller skip _handle_annotations although `{norm(res)[:40]}` did "
+                f"not come out of it - Concat(p, q).annotate(a)[7:0] became the bare q for a non-eliminatable a (the rewrite has to "
+                f"be refused) as for a relocatable one (it has to move to the result)",
+                construct=f"{name}: result flagged as annotated",
+            )
+    R.need(n >= 20, f"only {n} simplifiers found")
+    if flagged == 0:
+        R.ok(m, None, "no simplifier claims to have dealt with annotations")
